@@ -518,142 +518,3 @@ Proof.
   - exfalso. apply nth_error_None in E3. rewrite Forall_forall in Hrange.
     specialize (Hrange _ (nth_error_In _ _ Htp)). lia.
 Qed.
-
-(* ---------------------------------------------------------------------------------------- *)
-(* PrepareTriParts when triParts has to be regenerated (e.g. after SetDefaultPartition or a
-   reload): with at least one partition the regenerated assignment is complete and in range *)
-Lemma ks_pb_prepare_true_total (mapped : bool) (p : ks_pb) :
-  kb_ns p = 0 -> vlen (kb_tris p) < 2 ^ 31 -> exists p', ks_pb_prepare_true mapped p = Ok p'.
-Proof.
-  intros Hns Hl. unfold ks_pb_prepare_true. destruct (negb (ks_isnil (kb_tt p))); [eauto|].
-  rewrite Hns. cbn [N.eqb negb bind]. destruct mapped; [|eauto].
-  unfold ks_pb_gen_true. destruct (ks_isnil (kb_vm p) || ks_isnil (kb_tris p))%bool; [eauto|].
-  rewrite (apply_map_tris_correct 31 true) by exact Hl. cbn [bind].
-  destruct (vlen (kb_tris p) =? vlen (map ks_rot (fst (apply_map_spec (kb_tris p) (map Z.of_N (kb_vm p)))))); eauto.
-Qed.
-
-Lemma ks_tri_eqb_eq (a b : tri) : ks_tri_eqb a b = true -> a = b.
-Proof.
-  destruct a as [[a1 a2] a3], b as [[b1 b2] b3]. unfold ks_tri_eqb. intros H.
-  apply andb_true_iff in H. destruct H as [H H3]. apply andb_true_iff in H. destruct H as [H1 H2].
-  apply N.eqb_eq in H1, H2, H3. subst. reflexivity.
-Qed.
-
-(* every binding of the triangle -> index map names a position of the shape's triangle list *)
-Definition ks_index_ok (ts : list tri) (n : Z) (m : list (tri * Z)) : Prop :=
-  forall k j, In (k, j) m -> (0 <= j < n)%Z /\ exists t, nth_error ts (Z.to_nat j) = Some t /\ k = ks_rot t.
-
-Lemma ks_tri_index_ok (full : list tri) : forall (ts pre : list tri) (m : list (tri * Z)),
-  full = pre ++ ts -> ks_index_ok full (Z.of_nat (length full)) m ->
-  ks_index_ok full (Z.of_nat (length full)) (ks_tri_index ts (Z.of_nat (length pre)) m).
-Proof.
-  induction ts as [|t ts IH]; intros pre m Hf Hm; cbn [ks_tri_index]; [exact Hm|].
-  replace (Z.of_nat (length pre) + 1)%Z with (Z.of_nat (length (pre ++ [t]))) by (rewrite app_length; cbn; lia).
-  apply IH; [rewrite Hf, <- app_assoc; reflexivity|].
-  intros k j [E|H]; [|apply Hm; exact H]. inversion E; subst k j.
-  split; [rewrite Hf, app_length; cbn; lia|]. exists t. split; [|reflexivity].
-  rewrite Nat2Z.id, Hf, nth_error_app2 by lia. rewrite Nat.sub_diag. reflexivity.
-Qed.
-
-Lemma ks_tri_find_in : forall (m : list (tri * Z)) (t : tri) (j : Z), ks_tri_find m t = Some j -> In (t, j) m.
-Proof.
-  induction m as [|[k i] m IH]; intros t j H; [discriminate|]. cbn [ks_tri_find] in H.
-  destruct (ks_tri_eqb k t) eqn:E; [inversion H; subst; apply ks_tri_eqb_eq in E; subst; left; reflexivity|].
-  right. apply IH. exact H.
-Qed.
-
-Definition ks_tp_ok (lo hi : Z) (tp : list Z) : Prop := Forall (fun pj => (lo <= pj < hi)%Z) tp.
-
-(* entry i was written only if some partition triangle equals shape triangle i up to rotation *)
-Definition ks_touched (ts pts : list tri) (i : nat) : Prop :=
-  exists pt t, In pt pts /\ nth_error ts i = Some t /\ ks_rot pt = ks_rot t.
-
-Lemma ks_assign_tris_ok (ts : list tri) (m : list (tri * Z)) : forall (pts : list tri) (pi : Z) (tp : list Z) (hi : Z),
-  ks_index_ok ts (Z.of_nat (length tp)) m ->
-  (0 <= pi < hi)%Z -> ks_tp_ok (-1) hi tp ->
-  exists tp', ks_assign_tris m pts pi tp = Ok tp' /\ length tp' = length tp /\ ks_tp_ok (-1) hi tp' /\
-    forall i, nth_error tp' i = nth_error tp i \/ ks_touched ts pts i.
-Proof.
-  induction pts as [|pt pts IH]; intros pi tp hi Hm Hpi Htp; cbn [ks_assign_tris].
-  { exists tp. split; [reflexivity|]. split; [reflexivity|]. split; [exact Htp|]. intros i. left. reflexivity. }
-  destruct (ks_tri_find m (ks_rot pt)) as [j|] eqn:Ef.
-  2:{ destruct (IH pi tp hi Hm Hpi Htp) as (tp' & E' & L' & R' & T'). exists tp'. repeat split; auto.
-      intros i. destruct (T' i) as [H|(pt' & t & H1 & H2 & H3)]; [left; exact H|].
-      right. exists pt', t. split; [right; exact H1|]. split; assumption. }
-  apply ks_tri_find_in in Ef. destruct (Hm _ _ Ef) as (Hj & t & Ht & Hk).
-  destruct (ks_vset_some tp (Z.to_N j) pi) as (tp1 & E1 & L1 & G1 & O1); [unfold vlen; lia|].
-  rewrite E1. destruct (IH pi tp1 hi) as (tp' & E' & L' & R' & T').
-  - rewrite L1. exact Hm.
-  - exact Hpi.
-  - unfold ks_tp_ok in *. apply Forall_forall. intros x Hx. apply In_nth_error in Hx. destruct Hx as (q & Hq).
-    destruct (N.eq_dec (N.of_nat q) (Z.to_N j)) as [Eq|Nq].
-    + unfold vget in G1. rewrite <- Eq, Nat2N.id in G1. rewrite G1 in Hq. inversion Hq; subst. lia.
-    + specialize (O1 (N.of_nat q) Nq). unfold vget in O1. rewrite Nat2N.id in O1. rewrite O1 in Hq.
-      rewrite Forall_forall in Htp. apply Htp. eapply nth_error_In. exact Hq.
-  - exists tp'. split; [exact E'|]. split; [lia|]. split; [exact R'|].
-    intros i. destruct (T' i) as [H|(pt' & t' & H1 & H2 & H3)].
-    + destruct (N.eq_dec (N.of_nat i) (Z.to_N j)) as [Eq|Nq].
-      * right. exists pt, t. split; [left; reflexivity|]. split; [|exact Hk].
-        replace i with (Z.to_nat j) by lia. exact Ht.
-      * left. rewrite H. specialize (O1 (N.of_nat i) Nq). unfold vget in O1. rewrite Nat2N.id in O1. exact O1.
-    + right. exists pt', t'. split; [right; exact H1|]. split; assumption.
-Qed.
-
-Lemma ks_assign_parts_ok (ts : list tri) (m : list (tri * Z)) : forall (parts : list ks_pb) (pi : Z) (tp : list Z) (hi : Z),
-  ks_index_ok ts (Z.of_nat (length tp)) m ->
-  (0 <= pi)%Z -> (pi + Z.of_nat (length parts) <= hi)%Z -> ks_tp_ok (-1) hi tp ->
-  exists tp', ks_assign_parts m parts pi tp = Ok tp' /\ length tp' = length tp /\ ks_tp_ok (-1) hi tp' /\
-    forall i, nth_error tp' i = nth_error tp i \/ ks_touched ts (concat (map kb_tt parts)) i.
-Proof.
-  induction parts as [|p parts IH]; intros pi tp hi Hm Hpi Hhi Htp; cbn [ks_assign_parts].
-  { exists tp. split; [reflexivity|]. split; [reflexivity|]. split; [exact Htp|]. intros i. left. reflexivity. }
-  destruct (ks_assign_tris_ok ts m (kb_tt p) pi tp hi Hm) as (tp1 & E1 & L1 & R1 & T1); [cbn [length] in Hhi; lia|exact Htp|].
-  rewrite E1. cbn [bind]. destruct (IH (pi + 1)%Z tp1 hi) as (tp' & E' & L' & R' & T').
-  - rewrite L1. exact Hm.
-  - lia.
-  - cbn [length] in Hhi. lia.
-  - exact R1.
-  - exists tp'. split; [exact E'|]. split; [lia|]. split; [exact R'|].
-    intros i. cbn [map concat].
-    destruct (T' i) as [H|(pt & t & H1 & H2 & H3)].
-    + destruct (T1 i) as [H'|(pt & t & H1 & H2 & H3)]; [left; congruence|].
-      right. exists pt, t. split; [apply in_app_iff; left; exact H1|]. split; assumption.
-    + right. exists pt, t. split; [apply in_app_iff; right; exact H1|]. split; assumption.
-Qed.
-
-(* PrepareTriParts when triParts has to be regenerated: total (for partitions without strips), one
-   entry per triangle, every entry a partition index or -1, and -1 for every triangle that no
-   partition holds *)
-Theorem ks_prepare_triparts_regen (ts : list tri) (s : ks_sp) :
-  vlen ts <> vlen (kp_tp s) ->
-  Forall (fun p => kb_ns p = 0 /\ vlen (kb_tris p) < 2 ^ 31) (kp_parts s) ->
-  exists s0, ks_sp_prepare_triparts ts s = Ok s0 /\ length (kp_parts s0) = length (kp_parts s) /\
-    kp_mapped s0 = kp_mapped s /\ length (kp_tp s0) = length ts /\
-    Forall (fun pj => (-1 <= pj < Z.of_nat (length (kp_parts s0)))%Z) (kp_tp s0) /\
-    (forall i t, nth_error ts i = Some t ->
-       (forall p pt, In p (kp_parts s0) -> In pt (kb_tt p) -> ks_rot pt <> ks_rot t) ->
-       nth_error (kp_tp s0) i = Some (-1)%Z).
-Proof.
-  intros Hne Hall. unfold ks_sp_prepare_triparts.
-  destruct (N.eqb_spec (vlen ts) (vlen (kp_tp s))); [contradiction|].
-  unfold ks_sp_prepare_true.
-  destruct (ks_mapM_rel (ks_pb_prepare_true (kp_mapped s)) (fun _ _ => True) (kp_parts s)) as (ps & Eps & Fps).
-  { intros p Hp. rewrite Forall_forall in Hall. destruct (Hall p Hp) as [H1 H2].
-    destruct (ks_pb_prepare_true_total (kp_mapped s) p H1 H2) as (p' & E). eauto. }
-  rewrite Eps. cbn [bind]. unfold ks_sp_gen_triparts. cbn [kp_parts kp_np kp_mapped kp_tp].
-  assert (Hlp : length ps = length (kp_parts s)) by (symmetry; eapply ks_Forall2_length; exact Fps).
-  destruct (ks_assign_parts_ok ts (ks_tri_index ts 0%Z []) ps 0%Z (repeat (-1)%Z (length ts)) (Z.of_nat (length ps))) as (tp' & E' & L' & R' & T').
-  - rewrite repeat_length. apply (ks_tri_index_ok ts ts [] [] eq_refl). intros k j [].
-  - lia.
-  - lia.
-  - unfold ks_tp_ok. apply Forall_forall. intros x Hx. apply repeat_spec in Hx. subst. lia.
-  - rewrite E'. cbn [bind]. eexists. split; [reflexivity|]. cbn [kp_parts kp_mapped kp_tp].
-    split; [exact Hlp|]. split; [reflexivity|]. split; [rewrite L', repeat_length; reflexivity|]. split; [exact R'|].
-    intros i t Hi Hnone. destruct (T' i) as [H|(pt & t' & H1 & H2 & H3)].
-    + rewrite H. assert (i < length ts)%nat by (apply nth_error_Some; congruence).
-      rewrite (nth_error_nth' _ (-1)%Z) by (rewrite repeat_length; assumption).
-      f_equal. apply nth_repeat.
-    + exfalso. rewrite Hi in H2. inversion H2; subst t'.
-      apply in_concat in H1. destruct H1 as (l & Hl & Hpt). apply in_map_iff in Hl. destruct Hl as (p & <- & Hp).
-      exact (Hnone p pt Hp Hpt H3).
-Qed.
